@@ -123,6 +123,22 @@ def draws_only_from_model(c0: bool, c1: bool, c2: bool, t0: int, t1: int, t2: in
     n, kind, service, other = hx.P['n'], hx.P['world'], hx.P['service'], hx.P.get('other', False)
     m = Model(seed=1, logger=NULL_LOGGER)
     env = _world(m, kind)
+    if hx.P.get('rehost'):
+        # the environment object first serves another model (which draws from its own generator), then is handed over:
+        # set_model + set_environment.  From then on every draw comes from the new owner's generator.
+        first = Model(seed=7, logger=NULL_LOGGER)
+        first.random = SymRandom([g0, g1, g2])
+        env.set_model(first)
+        first.set_environment(env)
+        tmp = [HA("t%d" % i, first) for i in range(2)]
+        for a_ in tmp:
+            env.add_agent(a_)
+        env.get_random_agent()
+        env.shuffle()
+        for a_ in tmp:
+            env.remove_agent(a_.id)
+        env.set_model(m)
+        m.set_environment(env)
     rng = SymRandom([r0, r1, r2])
     m.random = rng
     hav = Havoc([g0, g1, g2, g0, g1, g2])
@@ -237,7 +253,8 @@ def obligations(tier):
     parts = []
     for service in ("pick", "shuffle"):
         parts += [{"n": 2, "world": "plain", "service": service}, {"n": 3, "world": "plain", "service": service},
-                  {"n": 2, "world": "plain", "service": service, "other": True}, {"n": 2, "world": "grid", "service": service}]
+                  {"n": 2, "world": "plain", "service": service, "other": True}, {"n": 2, "world": "grid", "service": service},
+                  {"n": 2, "world": "plain", "service": service, "rehost": True}]
         if tier != "quick":
             parts += [{"n": 3, "world": "space", "service": service}, {"n": 3, "world": "grid", "service": service, "other": True}]
     return [
